@@ -309,6 +309,7 @@ Proof.
     + destruct (pc s); simpl in *; try discriminate; jp_tac.
   - break H. split; simpl; assumption.
   - inversion H; subst. split; simpl; assumption.
+  - (* peer reset *) inversion H; subst. split; simpl; assumption.
   - break H. open_on. pose_loc. split; simpl; norm_pc; [|exact HP]. eapply Jw_put_keep; eauto.
   - open_on. pose_loc. split; simpl; norm_pc; [|exact HP]. eapply Jw_put_keep; eauto.
   - break H. open_on. pose_loc. split; simpl; norm_pc; [|exact HP]. eapply Jw_put_keep; eauto.
